@@ -186,6 +186,236 @@ def replay_structure(m, V, sos, N, keys):
     return None
 
 
+def descent_p_vc(unigram=False):
+    """P rung: `_lookup_calc_idx_log_probs` for a SYMBOLIC order N >= 2, batch size, vocabulary, history length, history index, start
+    symbol (inside / outside the vocabulary) and ANY flat trie that is well-formed, proved with a loop invariant over the descent.
+
+    Abstract view of the buffers (the data-structure half of the contract):
+        children of node d = positions [offsets[d] + d, offsets[d + 1] + d + 1), the child at position p carries token ids[p - U];
+        well_formed: there is a level function with  level = 1 on the unigram nodes,  1 <= level(d) <= N - 1  ==>  d + 1 < O, the
+        child range lies inside [U, P) and has at most S slots, children are one level deeper and carry pairwise different tokens.
+        has_child(d, t) / child(d, t): the (then unique) child of d carrying token t - definitional.
+    Spec over the view (the property's recursion, by recursion on the context length k; q = batch element, w = next token,
+    tok(k, q) = the k-th most recent history token, start symbols in front of a short history):
+        ngram_node(0) = w,  ngram_listed(k) = ngram_listed(k-1) and has_child(ngram_node(k-1), tok(k)),   (the n-gram tok(k)..tok(1) w)
+        context_node(0) = tok(1), context_listed(k) likewise with tok(k+1)                                   (the context tok(k+1)..tok(1))
+        katz(0) = logp[w];  katz(k) = logp[ngram_node(k)] if listed and finite, else backoff(k) + katz(k-1),
+        backoff(k) = logb[context_node(k-1)] if context_listed(k-1) else 0.
+    Postcondition: out[q, w] = katz(N-1, q, w)  (as -inf-or-real).   That the buffers built by `_build_trie` are well-formed and
+    that their view is the table is the bounded driver's run-time contract (contracts/C06_rt.py::trie_view_check)."""
+    import pydrobert.torch._lm as LM
+    from vf.pyvc import symtensor as stn
+    from vf.pyvc.interp import LoopSpec, PathAbort
+
+    z = ip.to_z3
+    B, V, T, O, G, S, SOS, HIDX, X0, R0, Q0 = z3.Ints("B V T O G S sos hidx x0 r0 q0")
+    N = 1 if unigram else z3.Int("N")
+    Iz, Rz, Bz = z3.IntSort(), z3.RealSort(), z3.BoolSort()
+    fn = lambda nm, *sorts: z3.Function(nm, *sorts)
+    HIST, OFF, IDS, LPV, LPF, LB = fn("hist", Iz, Iz, Iz), fn("offsets", Iz, Iz), fn("ids", Iz, Iz), fn("logp", Iz, Rz), fn("logp_is_minus_inf", Iz, Bz), fn("logb", Iz, Rz)
+    LEVEL, HAS, CHILD = fn("level", Iz, Iz), fn("has_child", Iz, Iz, Bz), fn("child", Iz, Iz, Iz)
+    EXN, NODEN, EXP, NODEP = fn("ngram_listed", Iz, Iz, Iz, Bz), fn("ngram_node", Iz, Iz, Iz, Iz), fn("context_listed", Iz, Iz, Bz), fn("context_node", Iz, Iz, Iz)
+    KF, KV = fn("katz_is_minus_inf", Iz, Iz, Iz, Bz), fn("katz", Iz, Iz, Iz, Rz)
+    SH = z3.If(z3.And(0 <= SOS, SOS < V), 0, 1)
+    U = V + SH + (0 if unigram else 1)
+    P = O + G
+    M_ = B * V
+    mp = lambda t: z3.If(z3.And(SH == 1, t == SOS), V, t)
+    TOK = lambda k, q: mp(z3.If(HIDX - k >= 0, HIST(HIDX - k, q), SOS))
+    cs = lambda d: OFF(d) + d
+    ce = lambda d: OFF(d + 1) + d + 1
+    inner = lambda d: z3.And(1 <= LEVEL(d), LEVEL(d) <= N - 1)
+    TOKOK = lambda t, b: z3.Implies(z3.And(0 <= t, t < T, 0 <= b, b < B), z3.Or(z3.And(0 <= HIST(t, b), HIST(t, b) < V), HIST(t, b) == SOS))
+    AX_U = lambda d: z3.Implies(z3.And(0 <= d, d < V + SH), LEVEL(d) == 1)
+    AX_A = lambda d: z3.Implies(inner(d), z3.And(0 <= d, d + 1 < O, U <= cs(d), cs(d) <= ce(d), ce(d) <= P, ce(d) - cs(d) <= S))
+    AX_B = lambda d, p: z3.Implies(z3.And(inner(d), cs(d) <= p, p < ce(d)), LEVEL(p) == LEVEL(d) + 1)
+    AX_C = lambda d, p, q: z3.Implies(z3.And(inner(d), cs(d) <= p, p < q, q < ce(d)), IDS(p - U) != IDS(q - U))
+    DEF_I = lambda d, t, p: z3.Implies(z3.And(inner(d), cs(d) <= p, p < ce(d), IDS(p - U) == t), z3.And(HAS(d, t), CHILD(d, t) == p))
+    DEF_II = lambda d, t: z3.Implies(z3.And(inner(d), HAS(d, t)), z3.And(cs(d) <= CHILD(d, t), CHILD(d, t) < ce(d), IDS(CHILD(d, t) - U) == t))
+    BASE_N = lambda q, w: z3.And(EXN(0, q, w), NODEN(0, q, w) == w)
+    REC_N = lambda k, q, w: z3.Implies(k >= 1, z3.And(EXN(k, q, w) == z3.And(EXN(k - 1, q, w), HAS(NODEN(k - 1, q, w), TOK(k, q))),
+                                                      NODEN(k, q, w) == z3.If(EXN(k, q, w), CHILD(NODEN(k - 1, q, w), TOK(k, q)), NODEN(k - 1, q, w))))
+    BASE_P = lambda q: z3.And(EXP(0, q), NODEP(0, q) == TOK(1, q))
+    REC_P = lambda k, q: z3.Implies(k >= 1, z3.And(EXP(k, q) == z3.And(EXP(k - 1, q), HAS(NODEP(k - 1, q), TOK(k + 1, q))),
+                                                   NODEP(k, q) == z3.If(EXP(k, q), CHILD(NODEP(k - 1, q), TOK(k + 1, q)), NODEP(k - 1, q))))
+    BO = lambda k, q: z3.If(k >= N, z3.RealVal(0), z3.If(EXP(k - 1, q), LB(NODEP(k - 1, q)), z3.RealVal(0)))
+    clob = lambda k, q, w: z3.And(EXN(k, q, w), z3.Not(LPF(NODEN(k, q, w))))
+    BASE_K = lambda q, w: z3.And(KF(0, q, w) == LPF(w), KV(0, q, w) == LPV(w))
+    REC_K = lambda k, q, w: z3.Implies(k >= 1, z3.And(KF(k, q, w) == z3.If(clob(k, q, w), z3.BoolVal(False), KF(k - 1, q, w)),
+                                                      KV(k, q, w) == z3.If(clob(k, q, w), LPV(NODEN(k, q, w)), BO(k, q) + KV(k - 1, q, w))))
+    PEND = lambda k, q, w: z3.If(z3.Or(k == 0, clob(k, q, w)), BO(k + 1, q), z3.RealVal(0))
+    d_, p_, q_, t_, k_, w_, b_, x_, j_, r_ = z3.Ints("d_q p_q q_q t_q k_q w_q b_q x_q j_q r_q")
+    Bq = lambda c: z3.BoolVal(c) if isinstance(c, bool) else c
+    state = {"cur": None}
+
+    def inv_at(st, k, x, parts=False):
+        """the invariant after k iterations at position x of the (M + B)-vectors: n-gram path below M, context path from M on"""
+        d = z(st["desc"].elem(x))
+        fnd = Bq(st["found"].elem(x))
+        fl, vl = ct.ng_split(st["last_logps"].elem(x))
+        fl, vl = Bq(fl), z(vl)
+        pend = z(st["last_backoffs"].elem(x))
+        q, w, qp = x / V, x % V, x - M_
+        rng, lo, hi = z3.And(0 <= x, x < M_ + B), z3.And(0 <= x, x < M_), z3.And(M_ <= x, x < M_ + B)
+        out = [("node_level", z3.Implies(rng, z3.And(1 <= LEVEL(d), LEVEL(d) <= k + 1))),
+               ("ngram_path.listed", z3.Implies(lo, fnd == EXN(k, q, w))), ("ngram_path.node", z3.Implies(lo, d == NODEN(k, q, w))),
+               ("value.is_minus_inf", z3.Implies(lo, fl == KF(k, q, w))),
+               ("value.plus_pending_backoff", z3.Implies(z3.And(lo, z3.Not(KF(k, q, w))), vl + pend == BO(k + 1, q) + KV(k, q, w))),
+               ("pending_backoff", z3.Implies(lo, pend == PEND(k, q, w))),
+               ("context_path.listed", z3.Implies(z3.And(hi, k <= N - 2), fnd == EXP(k, qp))), ("context_path.node", z3.Implies(z3.And(hi, k <= N - 2), d == NODEP(k, qp)))]
+        return out if parts else z3.And([g for _, g in out])
+
+    def thunk(I):
+        I.stubs.update(stn.stubs())
+        state["cur"] = None
+        hist = stn.ST((T, B), lambda t, b: HIST(z(t), z(b)), "long")
+        hidx = stn.ST((), lambda: HIDX, "long")
+        offsets = stn.ST((O,), lambda d: OFF(z(d)), "long")
+        ids = stn.ST((O + G - U,), lambda p: IDS(z(p)), "long")
+        logps = stn.ST((P,), lambda p: ct.NegGuarded(LPF(z(p)), LPV(z(p))), "float")
+        logbs = stn.ST((O,), lambda d: LB(z(d)), "float")
+
+        def site(x):
+            """instances at position x for the iteration in progress (its invariant, the well-formedness of the node it stands on, and -
+            once the match test and the match sum exist - their contracts, the lemma about the sum and the definitions they meet)"""
+            cur = state["cur"]
+            if cur is None:
+                return [TOKOK(HIDX - 1, x), AX_U(mp(HIST(HIDX - 1, x))), AX_U(mp(SOS)), AX_A(mp(HIST(HIDX - 1, x))), AX_A(mp(SOS))]
+            st, k = cur["st"], cur["k"]
+            d = z(st["desc"].elem(x))
+            out = [inv_at(st, k, x), AX_A(d)]
+            if cur.get("lemma") is not None:
+                an, t = cur["any"], z(cur["frame"].locals["hist_n"].elem(x))
+                wx = an["W"](x)
+                out += [an["witness"]([x]), cur["lemma"](x, S), DEF_I(d, t, cs(d) + wx), DEF_II(d, t), an["intro"]([x], CHILD(d, t) - cs(d)), AX_B(d, cs(d) + wx), AX_A(cs(d) + wx)]
+            return out
+
+        def hook(ii):
+            out = []
+            for x in (ii[0], ii[0] + M_):
+                out += site(x)
+            return out
+
+        def sum_hook(rec):
+            cur = state["cur"]
+            if cur is None or cur.get("lemma") is not None:
+                raise ip.Unsupported("a sum the contract does not know (one match sum per iteration of the descent)")
+            an = I.ex.ghost["anys"][-1]
+            cur["any"], cur["sum"] = an, rec
+            PS, Wt = rec["S"], an["W"]
+            O0, Jl = I.ex.fresh("int", "o_lemma"), I.ex.fresh("int", "j_lemma")
+            I.ex.assume(z3.And(0 <= O0, O0 < M_ + B))
+            lemma = lambda o, J: z3.Implies(z3.And(0 <= o, o < M_ + B, 0 <= J, J <= S), PS(o, J) == z3.If(z3.And(an["B"](o), J > Wt(o)), rec["val"]([o], Wt(o)), 0))
+            d = z(cur["st"]["desc"].elem(O0))
+            for x in [inv_at(cur["st"], cur["k"], O0), AX_A(d), an["witness"]([O0]), an["intro"]([O0], Jl), rec["base"](O0), rec["step"](O0, Jl),
+                      AX_C(d, cs(d) + Jl, cs(d) + Wt(O0)), AX_C(d, cs(d) + Wt(O0), cs(d) + Jl)]:
+                I.ex.instance(x)
+            I.ex.oblige("descent.match_sum.runs_over_the_descendant_slots", z3.And(rec["T"] == S, an["n"] == S))
+            I.ex.oblige("descent.match_sum.base", lemma(O0, z3.IntVal(0)))
+            I.ex.oblige("descent.match_sum.step", z3.Implies(z3.And(0 <= Jl, Jl < S, lemma(O0, Jl)), lemma(O0, Jl + 1)))
+            I.ex.assume(z3.ForAll([x_, j_], lemma(x_, j_)))  # conclusion of the induction over the slot index, for every position
+            cur["lemma"] = lemma
+
+        class Descent(LoopSpec):
+            def run(self, I2, s, f):
+                names = ("desc", "found", "last_logps", "last_backoffs")
+                hist_l = ip.local(f, "hist")
+                row_at = lambda r, q: z3.Implies(z3.And(1 <= r, r <= N - 1, 0 <= q, q < B), z(hist_l.elem(N - 1 - r, q)) == TOK(r, q))
+                for x in (TOKOK(HIDX - R0, Q0),):
+                    I.ex.instance(x)
+                I.ex.oblige("descent.context.rows_are_the_last_tokens", z3.And(z3.BoolVal(len(hist_l.shape) == 2), z(hist_l.shape[0]) == N - 1, z(hist_l.shape[1]) == B, row_at(R0, Q0)))
+                I.ex.assume(z3.ForAll([r_, q_], row_at(r_, q_)))
+                it = I.eval(s.iter, f)
+                I.ex.oblige("descent.loop.range", z3.And(z(it.lo) == 1, z(it.hi) == N, z(it.step) == 1))
+                st0 = {nm: ip.local(f, nm) for nm in names}
+                qn, wn, qp = X0 / V, X0 % V, X0 - M_
+                for x in [BASE_N(qn, wn), BASE_K(qn, wn), BASE_P(qn), BASE_P(qp), AX_U(wn), row_at(z3.IntVal(1), qn), row_at(z3.IntVal(1), qp),
+                          TOKOK(HIDX - 1, qn), TOKOK(HIDX - 1, qp), AX_U(TOK(1, qn)), AX_U(TOK(1, qp))]:
+                    I.ex.instance(x)
+                for lbl, g in inv_at(st0, z3.IntVal(0), X0, parts=True):
+                    I.ex.oblige("descent.init." + lbl, g)
+                fr = lambda nm, *sorts: stn._fresh(nm, *sorts)
+                DESC, FOUND, LLF, LLV, PENDF = fr("desc", Iz, Iz), fr("found", Iz, Bz), fr("last_logp_is_minus_inf", Iz, Bz), fr("last_logp", Iz, Rz), fr("last_backoff", Iz, Rz)
+                st = {"desc": stn.ST((M_ + B,), lambda i: DESC(z(i)), "long"), "found": stn.ST((M_ + B,), lambda i: FOUND(z(i)), "bool"),
+                      "last_logps": stn.ST((M_,), lambda i: ct.NegGuarded(LLF(z(i)), LLV(z(i))), "float"), "last_backoffs": stn.ST((M_,), lambda i: PENDF(z(i)), "float")}
+                for nm in names:
+                    f.locals[nm] = st[nm]
+                if I.ex.choose(2) == 0:
+                    k = I.ex.fresh("int", "iter")
+                    I.ex.assume(z3.And(0 <= k, k < N - 1))
+                    I.ex.assume(z3.ForAll([x_], inv_at(st, k, x_)))
+                    state["cur"] = cur = {"st": st, "k": k, "frame": f, "lemma": None}
+                    for x in (X0, M_ + qn):
+                        I.ex.instance(inv_at(st, k, x))
+                    I.assign(s.target, k + 1, f)
+                    I.exec_block(s.body, f)
+                    st1 = {nm: ip.local(f, nm) for nm in names}
+                    if cur.get("lemma") is None:
+                        raise ip.Unsupported("the loop body computed no match sum")
+                    for x in (X0, M_ + qn):
+                        for y in site(x):
+                            I.ex.instance(y)
+                    for y in [REC_N(k + 1, qn, wn), REC_K(k + 1, qn, wn), REC_P(k + 1, qn), REC_P(k + 1, qp), row_at(k + 1, qn), row_at(k + 2, qn), row_at(k + 2, qp), row_at(k + 1, qp)]:
+                        I.ex.instance(y)
+                    for lbl, g in inv_at(st1, k + 1, X0, parts=True):
+                        I.ex.oblige("descent.preserve." + lbl, g)
+                    raise PathAbort()
+                I.ex.assume(z3.ForAll([x_], inv_at(st, z3.IntVal(0) + N - 1, x_)))
+                I.ex.instance(inv_at(st, z3.IntVal(0) + N - 1, X0))
+                I.ex.ghost["flat_result"] = st["last_logps"]
+
+        I.loops[("_lookup_calc_idx_log_probs", 0)] = Descent("descent", None, None, None, {})
+        I.ex.ghost["skolem_hooks"] = [hook]
+        I.ex.ghost["sum_hooks"] = [sum_hook]
+        out = I.call(LM._lookup_calc_idx_log_probs, [hist, hidx, offsets, ids, logps, logbs, SOS, V, N, G, S], {})
+        if unigram:
+            I.ex.instance(BASE_K(X0 / V, X0 % V))
+        return out
+
+    B0, W0 = z3.Ints("b0 w0")
+
+    def post(p):
+        if not api.returns(p) or not hasattr(p.value, "elem"):
+            return False
+        out = p.value
+        goals = [("result_shape", z3.And(z3.BoolVal(len(out.shape) == 2), z(out.shape[0]) == B, z(out.shape[1]) == V))]
+        if unigram:
+            f0, v0 = ct.ng_split(out.elem(B0, W0))
+            goals.append(("unigram_value", z3.Implies(z3.And(0 <= B0, B0 < B, 0 <= W0, W0 < V), z3.And(Bq(f0) == LPF(W0), z(v0) == LPV(W0)))))
+            return goals
+        flat = p.ghost.get("flat_result")
+        if flat is None:
+            return False
+        fl, vl = ct.ng_split(flat.elem(X0))
+        q, w = X0 / V, X0 % V
+        kf, kv = KF(z3.IntVal(0) + N - 1, q, w), KV(z3.IntVal(0) + N - 1, q, w)
+        fo, vo = ct.ng_split(out.elem(B0, W0))
+        ff, vf = ct.ng_split(flat.elem(B0 * V + W0))
+        goals += [("flat_result_is_the_katz_recursion_at_full_context", z3.Implies(z3.And(0 <= X0, X0 < M_), z3.And(Bq(fl) == kf, z3.Implies(z3.Not(kf), z(vl) == kv)))),
+                  ("result_is_the_row_major_view_of_the_flat_result", z3.And(Bq(fo) == Bq(ff), z(vo) == z(vf)))]
+        return goals
+
+    wf = [z3.ForAll([d_], AX_U(d_)), z3.ForAll([d_], AX_A(d_)), z3.ForAll([d_, p_], AX_B(d_, p_)), z3.ForAll([d_, p_, q_], AX_C(d_, p_, q_)),
+          z3.ForAll([d_, t_, p_], DEF_I(d_, t_, p_)), z3.ForAll([d_, t_], DEF_II(d_, t_)), z3.ForAll([t_, b_], TOKOK(t_, b_))]
+    spec = [z3.ForAll([q_, w_], BASE_N(q_, w_)), z3.ForAll([k_, q_, w_], REC_N(k_, q_, w_)), z3.ForAll([q_], BASE_P(q_)), z3.ForAll([k_, q_], REC_P(k_, q_)),
+            z3.ForAll([q_, w_], BASE_K(q_, w_)), z3.ForAll([k_, q_, w_], REC_K(k_, q_, w_))]
+    pre = [B >= 1, V >= 1, T >= 0, 0 <= HIDX, HIDX <= T, O >= U, G >= 1, S >= 0, S <= V + SH, 1 <= R0, 0 <= Q0, Q0 < B] + ([] if unigram else [N >= 2, R0 <= N - 1]) + wf + spec
+    # (b V + w) div V = b and (b V + w) mod V = w: ties the flat index of the loop to the matrix index of the result (nonlinear, raw)
+    bb, ww, vv = z3.Ints("b_l w_l v_l")
+    lemmas = [("row_major_index_splits_back", [vv >= 1, 0 <= ww, ww < vv, bb >= 0], z3.And((bb * vv + ww) / vv == bb, (bb * vv + ww) % vv == ww), "raw")]
+    return VC("C06.P.descent_is_katz_on_the_view", "_lookup_calc_idx_log_probs[%s; symbolic batch, vocabulary, history, start symbol, trie]" % ("N = 1" if unigram else "symbolic N >= 2"), M, "_lookup_calc_idx_log_probs", thunk,
+              pre=pre, posts=[("katz_recursion_on_the_trie_view", post)], lemmas=lemmas, inputs={"B": B, "V": V, "T": T, "O": O, "G": G, "S": S, "sos": SOS, "hidx": HIDX}, timeout_ms=60000, max_paths=64,
+              witness_hints=[B == 1, V == 2, S == 2, X0 == 1] + ([] if unigram else [N == 3]),
+              assumptions=["well-formed flat trie (level function, child ranges inside the buffers, at most S slots per node, sibling tokens pairwise different) and history tokens inside the vocabulary or the start symbol: preconditions; that `_build_trie` establishes them and that the view equals the table: run-time contract of the bounded driver",
+                           "has_child / child, the listed / node / katz functions: definitions by choice resp. by recursion on the context length (conservative)",
+                           "any over a symbolic extent = exists (with a witness function), sum = partial sums: assumed contracts; tensors as index functions (vf/pyvc/symtensor.py); the lemma `a sum with one unmasked slot is that slot` is proved by induction over the slot index inside the iteration",
+                           "scalar history index (the per-element index path with masked_select is the bounded driver's); float arithmetic treated as real arithmetic; -inf as a flag"])
+
+
+def p_vcs(ctx):
+    return [descent_p_vc(True), descent_p_vc(False)]
+
+
 def structures(quick):
     """(V, sos, N, present bitmask over canonical_grams) with all unigrams listed (the library requires them)"""
     out = []
